@@ -184,7 +184,20 @@ macro_rules! int_row {
 }
 
 fn int_rows_for(lit: &[u8], types: &[&str], out: &mut Out) {
-    let Some(t) = first_token(lit) else { return };
+    let Some(t) = first_token(lit) else {
+        // a non-decimal literal the lexer itself refuses (too wide for its u64): the conversion's
+        // result for every type is that error; the specification works out the value from the text
+        let radix = match lit.get(1) { Some(b'H' | b'h') => 16, Some(b'Q' | b'q') => 8, Some(b'B' | b'b') => 2, _ => 0 };
+        if lit.len() >= 3 && lit[0] == b'#' && radix != 0 && lit[2..].iter().all(|c| (*c as char).to_digit(radix).is_some()) {
+            if let Some(Err(e)) = Tokenizer::new_params(lit).next() {
+                for ty in types {
+                    out.put(&json!({"t": "int", "ty": ty, "kind": "hex", "lit": bytes_json(lit), "val": [],
+                                    "src": lossy(lit), "obs": obs_err(&Error::from(e))}));
+                }
+            }
+        }
+        return;
+    };
     for ty in types {
         match *ty {
             "u8" => int_row!(u8, "u8", t, lit, out),
@@ -300,6 +313,28 @@ fn c07_literals(rng: &mut Rng, thorough: bool) -> Vec<(Vec<u8>, Vec<&'static str
                 out.push((format!("#B{:b}", v).into_bytes(), all_types.clone()));
             }
         }
+    }
+    // non-decimal literals wider than 64 bits, leading zeros, lower-case digits
+    for z in ["#H10000000000000000", "#H10000000000000005", "#HFFFFFFFFFFFFFFFFF", "#H1FFFFFFFFFFFFFFFF", "#H123456789ABCDEF012",
+              "#Q2000000000000000000000", "#Q3777777777777777777777", "#Q2000000000000000000005", "#Q7777777777777777777777",
+              "#Q10000000000000000000000", "#Q1777777777777777777777", "#Q1777777777777777777776",
+              "#B10000000000000000000000000000000000000000000000000000000000000000",
+              "#B10000000000000000000000000000000000000000000000000000000000101010",
+              "#B1111111111111111111111111111111111111111111111111111111111111111",
+              "#B11111111111111111111111111111111111111111111111111111111111111111",
+              "#H00000000000000000000FF", "#Q000000000000000000000000377", "#B0000000000000000000000000000000000000000000000000000000000000000011111111",
+              "#hff", "#HfF", "#q377", "#b101", "#H0", "#Q0", "#B0", "#H00", "#HFFFFFFFFFFFFFFFF", "#hffffffffffffffff", "#H7FFFFFFFFFFFFFFF", "#H8000000000000000"] {
+        out.push((z.as_bytes().to_vec(), all_types.clone()));
+    }
+    for _ in 0..(if thorough { 400 } else { 60 }) {
+        // random widths around the 64-bit edge in each radix
+        let (pfx, radix, maxd) = *rng.pick(&[("#H", 16u32, 18usize), ("#Q", 8, 24), ("#B", 2, 67), ("#h", 16, 18), ("#q", 8, 24), ("#b", 2, 67)]);
+        let n = 1 + rng.below(maxd as u64) as usize;
+        let mut s = String::from(pfx);
+        for _ in 0..n {
+            s.push(std::char::from_digit(rng.below(radix as u64) as u32, radix).unwrap());
+        }
+        out.push((s.into_bytes(), all_types.clone()));
     }
     // keywords and near misses; other element types
     for k in ["MIN", "MAX", "MINimum", "MAXIMUM", "min", "maximum", "Max", "mINIMUM", "MAXI", "MINIMU", "MAXIMUMS", "MA", "MI", "M", "DEF", "INF", "NAN",
